@@ -737,7 +737,8 @@ func (o Bytes) BinaryOp(tok token.Token, right Object) (Object, error) {
 	case Bytes:
 		switch tok {
 		case token.Add:
-			return append(o, v...), nil
+			// the result must not share spare capacity with the left operand
+			return append(o[:len(o):len(o)], v...), nil
 		case token.Less:
 			return Bool(bytes.Compare(o, v) == -1), nil
 		case token.LessEq:
@@ -752,7 +753,8 @@ func (o Bytes) BinaryOp(tok token.Token, right Object) (Object, error) {
 	case String:
 		switch tok {
 		case token.Add:
-			return append(o, v...), nil
+			// the result must not share spare capacity with the left operand
+			return append(o[:len(o):len(o)], v...), nil
 		case token.Less:
 			return Bool(string(o) < string(v)), nil
 		case token.LessEq:
